@@ -195,6 +195,23 @@ def judgeLine (a : Acc) (l : String) : Except Verdict Acc := do
                match mf with | .clean => "ok" | .err => "err" | .trap => "crash"]
     if ms != obs then throw (.mismatch s!"udfwrite: model {ms} observed {obs}")
     pure { (a.add (ks.map (fun k => if k.supported then "udfwrite.supported" else "udfwrite.skipped-field"))) with nt := true }
+  | "livex" :: node :: fn :: _expr :: pts =>
+    match obs with
+    | ["X", how] => throw (.specfail (if how == "hang" then "terminates" else "process-survives") s!"livex {node} {fn}: {how}")
+    | ["nocanary"] => pure (a.add ["livex.canary-rejected"])
+    | ["defineerr"] => pure (a.add ["livex.define-error"])
+    | [cn, te, by_] =>
+      let some cn := cn.toNat? | throw (.badop l)
+      let some te := te.toNat? | throw (.badop l)
+      let (got, all) ← match by_.splitOn "/" with
+        | [g, t] => match g.toNat?, t.toNat? with
+          | some g, some t => pure (g, t)
+          | _, _ => throw (.badop l)
+        | _ => throw (.badop l)
+      match liveSpec false cn 4 te got all with
+      | some r => throw (.specfail r.1 s!"livex {node} {fn}: {r.2}")
+      | none => pure { (a.add [s!"livex.{node}", s!"fn.{fn}"]) with nt := a.nt || pts.length ≥ 1 }
+    | _ => throw (.badop l)
   | ["live", node, bad] =>
     match obs with
     | ["X", how] => throw (.specfail (if how == "hang" then "terminates" else "process-survives") s!"live {node} {bad}: {how}")
